@@ -400,6 +400,17 @@ fn boundary_numerals(bits: u32) -> Vec<(u128, bool)> {
         10u128.pow(29) + 7,
         10u128.pow(38) + 11,
     ];
+    // every power of ten with its predecessor (digit-count changes) and the powers of two around the
+    // byte / half-word / word boundaries with their neighbours
+    for k in 1..=21u32 {
+        vals.push(10u128.pow(k));
+        vals.push(10u128.pow(k) - 1);
+    }
+    for k in [7u32, 8, 15, 16, 24, 33, 40, 48, 56, 62, 65] {
+        vals.push((1u128 << k) - 1);
+        vals.push(1u128 << k);
+        vals.push((1u128 << k) + 1);
+    }
     vals.sort();
     vals.dedup();
     vals.into_iter().map(|v| (v, v < lim)).collect()
